@@ -59,8 +59,9 @@ pub fn render(cls: &Value) -> (String, String) {
     let lid = idv(g("lid"), nr);
     let rid = idv(g("rid"), nl);
     let cost = match g("cost") { "xwide" => WIDE.to_string(), "xmixed" => format!("-{}", &WIDE[3..]), "huge" => "9".repeat(40), o => o.to_string() };
-    let key = match g("key") { "ok" => "京".to_string(), "empty" => "".into(), "long" => "あ".repeat(10000), "toolong" => "あ".repeat(11000), "badescape" => "\\u{110000}".into(), "escape" => "a\\u002cb".into(), o => panic!("{}", o) };
-    let head = match g("head") { "same" => key.clone(), "other" => "頭".into(), "toolong" => "あ".repeat(11000), o => panic!("{}", o) };
+    let key = match g("key") { "ok" => "京".to_string(), "empty" => "".into(), "long" => "あ".repeat(10000), "toolong" => "あ".repeat(11000), "badescape" => "\\u{110000}".into(), "escape" => "a\\u002cb".into(),
+        "u126" => "a".repeat(126), "u127" => "a".repeat(127), "u128" => "a".repeat(128), "u129" => "a".repeat(129), "w127" => "あ".repeat(127), "w128" => "あ".repeat(128), o => panic!("{}", o) };
+    let head = match g("head") { "same" => key.clone(), "other" => "頭".into(), "toolong" => "あ".repeat(11000), "u127" => "頭".repeat(127), "u128" => "頭".repeat(128), o => panic!("{}", o) };
     let dic = match g("dic") { "*" => "*", "self" => "1", "other" => "0", "dangling" => "2", "uref" => "U0", "neg" => "-1", "xwide" => WIDE, o => panic!("{}", o) };
     let mode = match g("mode") { "bad" => "Q", "badwide" => WIDE, o => o };
     let splita = match g("splita") { "*" => "*".to_string(), "ids" => "0/0".into(), "dangling" => "0/5".into(),
